@@ -112,7 +112,7 @@ func c03SQL(cfg c03Cfg) string {
 	case "pct":
 		return fmt.Sprintf("SELECT count(*) AS n, percentile(v, 0) AS p0, percentile(v, 0.25) AS p25, percentile(v, 0.5) AS p50, percentile(v, 0.95) AS p95, percentile(v, 1) AS p100, nth_value(v, 1) AS nv1, nth_value(v, 2) AS nv2 FROM stream GROUP BY CountingWindow(%d)", cfg.N)
 	case "expr":
-		return fmt.Sprintf("SELECT count(*) AS n, sum(v + w) AS s1, sum(v * 2) AS s2, sum((v - 1) * 2) AS s3, sum(d.x) AS s4, avg(d.x) AS a4, max(v + w) AS m1, count(v * 2) AS c2, sum(wLoad) AS s5, max(wLoad * 2) AS m5, sum(v * 1.5) AS f1, sum(v * 2.5) AS f2, sum(d.x * 2) AS f3, min(d.x + 0.5) AS f4 FROM stream GROUP BY CountingWindow(%d)", cfg.N)
+		return fmt.Sprintf("SELECT count(*) AS n, sum(v + w) AS s1, sum(v * 2) AS s2, percentile(v, 0.5) AS pmid, sum((v - 1) * 2) AS s3, sum(d.x) AS s4, avg(d.x) AS a4, max(v + w) AS m1, count(v * 2) AS c2, sum(wLoad) AS s5, max(wLoad * 2) AS m5, sum(v * 1.5) AS f1, sum(v * 2.5) AS f2, sum(d.x * 2) AS f3, min(d.x + 0.5) AS f4, nth_value(v, 1) AS nlast, count(v + w) AS c6 FROM stream GROUP BY CountingWindow(%d)", cfg.N) // a parameterised aggregate in the middle and at the end of the list: the items after it keep their own arguments
 	case "groups":
 		// every aggregate of the property at once, two groups in one batch (per-group state must not be shared);
 		// stddev is left out here (known finding on "main"), its reference value is injected before the comparison
@@ -481,6 +481,10 @@ func c03CheckExpr(r Row, per [][5]ref.Val) (col, what string) {
 	}
 	if xs := colOf(3); len(xs) > 0 && !cmpNum(r["f4"], ref.Min(xs)+0.5) {
 		return "f4", fmt.Sprintf("min(d.x+0.5)=%v, reference %v", r["f4"], ref.Min(xs)+0.5)
+	}
+	// an expression argument after the parameterised aggregates of the list
+	if !cmpNum(r["c6"], float64(len(colOf(0)))) {
+		return "c6", fmt.Sprintf("count(v+w)=%v, reference %d", r["c6"], len(colOf(0)))
 	}
 	return "", ""
 }
